@@ -69,8 +69,39 @@ impl CacheKey {
 ///
 /// Removes extra whitespace and normalizes case for keywords.
 fn normalize_query(query: &str) -> String {
-    // Simple normalization: collapse whitespace
-    query.split_whitespace().collect::<Vec<_>>().join(" ")
+    // Collapse whitespace runs to one space and trim the ends - but only OUTSIDE
+    // string literals and quoted identifiers: `'a  b'` and `'a b'` are different
+    // queries and must not share a cached plan.
+    let mut out = String::with_capacity(query.len());
+    let mut quote: Option<char> = None;
+    let mut escaped = false;
+    let mut pending_space = false;
+    for c in query.chars() {
+        if let Some(q) = quote {
+            out.push(c);
+            if escaped {
+                escaped = false;
+            } else if c == '\\' {
+                escaped = true;
+            } else if c == q {
+                quote = None;
+            }
+            continue;
+        }
+        if c.is_whitespace() {
+            pending_space = !out.is_empty();
+            continue;
+        }
+        if pending_space {
+            out.push(' ');
+            pending_space = false;
+        }
+        if c == '\'' || c == '"' || c == '`' {
+            quote = Some(c);
+        }
+        out.push(c);
+    }
+    out
 }
 
 /// Entry in the cache with metadata.
